@@ -44,6 +44,17 @@ REGISTRY = {
                 "for the delivered-token rule only (DESIGN 5, C04)"]},
     "C08": {"module": "props.tokenizer", "units": ["lemmas", "process", "post_process", "iter_tokens", "tokenize"],
             "witness": "tok", "assumptions": TOK_ASSUME},
+    "C11": {"module": "props.sources", "units": ["buffer_init", "buffer_read", "buffer_position", "file_read", "file_open"],
+            "witness": "source", "assumptions": [
+                "library models (assumed contracts): binary stream.read(k) / wave.readframes(k) return the next "
+                "min(k, remaining) bytes / frames (None or negative: all remaining; sys.stdin.buffer.read rejects k < -1) "
+                "and b'' at the end; open()/wave.open() return a stream positioned at the start of the named file; "
+                "the file holds a whole number of samples",
+                "all finite operation histories follow by induction from the per-operation contracts, each stated "
+                "over the whole abstract view (audio, consumed, open)",
+                "float products in position_s / position_ms setters read as real arithmetic, int() exact truncation",
+                "StdinAudioSource: sizes None / negative are outside the statement (read(None) raises TypeError in the real code)",
+                "exact polynomial rewriting (pyvc/nl.py) and instantiated multiplication-monotonicity lemmas"]},
     "C16": {"module": "props.regions", "units": ["post_init", "getitem", "len", "seconds", "millis"],
             "witness": "region", "assumptions": REG_ASSUME},
     "C17": {"module": "props.regions", "units": ["post_init", "getitem", "add", "mul", "eq", "make_silence", "truediv",
